@@ -10,7 +10,7 @@ From Coq Require Import Reals QArith Qabs ZArith List Lia Lra.
 From Coquelicot Require Coquelicot.
 Import Coquelicot.Hierarchy Coquelicot.RInt.
 From OM Require Import Base.Ops Base.OpsR Base.Vec3 Gen.GenQuadTables Geom.Kernels Geom.Quadrature
-                       Geom.QuadTablesProofs Geom.QuadProofs Geom.KernelProofs
+                       Geom.QuadTablesProofs Geom.QuadTablesBig Geom.QuadProofs Geom.KernelProofs
                        Geom.QuadSymmetry Geom.AdaptiveProofs Geom.EdgeIntegral Geom.SolidAngleValues Geom.GreenFallback Geom.AdaptiveQuadratic Geom.SolidAngleSplit Geom.AnalyticSInPlane.
 From Coq Require Import Permutation.
 Import ListNotations.
